@@ -25,6 +25,18 @@ CLAIMS = {
  'C11': {'text': 'Decides (necessary) domain separation as constant propagation: from every public entry point exactly the interface api id (plus BLIND_ for blind generators) reaches each DST/seed role; suites differ in every interface constant.',
          'note': TB + 'Disjointness / identity-freeness of hash-to-curve outputs is assumed.',
          'technique': 'context-sensitive constant propagation over the MIR call tree + const evaluation'},
+ 'C03': {'text': 'Decides completely: absent == empty for every optional input of proof_gen / proof_verify; proof length = 272 + 32 * U (writer layout + one response per undisclosed message); reader offsets == writer offsets. '
+                 'Decides necessary conditions of prover/verifier agreement, including the production randomness request 5 + U that the test build never compiles (twin agreement with the mock and with the consumer guard). The Schnorr algebra is not decided.',
+         'note': TB,
+         'technique': 'MIR option-use discipline, codec layout extraction, cfg-twin comparison across build configurations, zone loop-coverage'},
+ 'C05': {'text': 'Decides completely: absent == empty for the optional octet/list inputs of the blind entry points. Decides necessary conditions: only the blind api id (+ BLIND_ for blind generators) reaches every role; '
+                 'production commit randomness M + 2 equals its mock twin and the positions read; commitment loops cover every committed message; prover and verifier shift committed indexes by L + 1. The algebra is not decided.',
+         'note': TB,
+         'technique': 'MIR dataflow + constant propagation + cfg-twin comparison + zone loop coverage'},
+ 'C07': {'text': 'Decides (provenance / non-flow reading): every blinding role in the production configuration (dead code for the test suite) has its only provenance in rand::thread_rng; one draw per vector element inside the loop; '
+                 'distinct role positions agreed between producer and consumer; each response is mask +/- secret*challenge with its own mask; transmitted types reach no secret-bearing type; no shared state. Probabilistic distinctness is assumed from the CSPRNG.',
+         'note': TB + 'rand::thread_rng is trusted to be a CSPRNG; Scalar::random to sample uniformly.',
+         'technique': 'MIR provenance (backward value dependence to origin calls) on non-test cfg + loop membership + type reachability'},
  'C08': {'text': 'Decides (sound, may-report) panic freedom of the 21 entry points and the derived Deserialize impls: every bounds / overflow / range-index / unwrap / explicit-panic site '
                  'reachable in the MIR is proven by a difference-bound length domain, carried as a precondition to every call site up to the entry points, or covered by an audited entry with a recomputed structural fingerprint; '
                  'generator counts and allocations must be bounded by input lengths. Wall-time budgets and termination of library code are not decided.',
